@@ -141,9 +141,21 @@ def run(ctx: Ctx, tier: str) -> Result:
     cl = cl[0]
     st = [n for n in t.nodes_in(cl, ast.Assign) if isinstance(n.targets[0], ast.Subscript)]
     lps = [l for l in t.nodes_in(cl, ast.For)]
-    okl = len(st) == 1 and len(lps) == 1 and isinstance(lps[0].target, ast.Tuple) and norm(st[0].targets[0].slice) == norm(lps[0].target.elts[0]) \
-        and isinstance(st[0].value, ast.Call) and st[0].value.args and norm(st[0].value.args[0]) == norm(lps[0].target.elts[1]) \
-        and norm(lps[0].iter) == "%s.items()" % cl.params[0] and not [n for n in ast.walk(lps[0]) if isinstance(n, (ast.Break, ast.Continue, ast.If))]
+    dcs = [n for n in t.nodes_in(cl, ast.DictComp)]
+    okl = False
+    if len(st) == 1 and len(lps) == 1:
+        okl = isinstance(lps[0].target, ast.Tuple) and norm(st[0].targets[0].slice) == norm(lps[0].target.elts[0]) \
+            and isinstance(st[0].value, ast.Call) and st[0].value.args and norm(st[0].value.args[0]) == norm(lps[0].target.elts[1]) \
+            and norm(lps[0].iter) == "%s.items()" % cl.params[0] and not [n for n in ast.walk(lps[0]) if isinstance(n, (ast.Break, ast.Continue, ast.If))]
+    elif len(dcs) == 1 and not st:
+        dc = dcs[0]
+        g0 = dc.generators[0]
+        okl = len(dc.generators) == 1 and not g0.ifs and isinstance(g0.target, ast.Tuple) and norm(dc.key) == norm(g0.target.elts[0]) \
+            and isinstance(dc.value, ast.Call) and dc.value.args and norm(dc.value.args[0]) == norm(g0.target.elts[1]) \
+            and norm(g0.iter) == "%s.items()" % cl.params[0]
+    if okl:
+        conv_ok = any(x.name.endswith("convert_variable") for n in t.nodes_in(cl, ast.Call) for x in t.resolve_call(n, cl).repo)
+        okl = conv_ok
     if okl:
         res.ok("C08.SCHEMA", {"var_lookup": "every entry converted under its own id"})
     else:
